@@ -46,6 +46,11 @@ static void uv__poll_io(uv_loop_t* loop, uv__io_t* w, unsigned int events) {
   if ((events & POLLERR) && !(events & UV__POLLPRI)) {
     uv__io_stop(loop, w, POLLIN | POLLOUT | UV__POLLRDHUP | UV__POLLPRI);
     uv__handle_stop(handle);
+    /* The handle is stopped now: drop the kernel registration as
+     * uv_poll_stop() does, the user may close the descriptor next.
+     */
+    if (!uv__fd_exists(loop, w->fd))
+      uv__platform_invalidate_fd(loop, w->fd);
     handle->poll_cb(handle, UV_EBADF, 0);
     return;
   }
